@@ -36,16 +36,43 @@
 //! caller id); `Ready(Err(e))` -> `result c <rendered error>` (`err:inner9:0` for the scripted readiness error). In the
 //! last two cases no call is made.
 //!
+//! Entry points and handles (all optional; an op file without them means what it meant):
+//! header  `via=<builder|new|default>`: where the builder comes from — `TimeLimiterLayer::builder()` (default),
+//!         `TimeLimiterConfigBuilder::new()`, `TimeLimiterConfigBuilder::default()`; three spellings of one thing.
+//!         more chain items: `n<text>` = `.name(text)`, `ls` / `le` / `lt` = `.on_success` / `.on_error` / `.on_timeout`
+//!         (counting listeners). None of them touches the timeout source or the mode. The listeners are cross-checked
+//!         when a call's result is rendered: every registered `on_timeout` has fired exactly once per `Timeout` result so
+//!         far (likewise success / error); a mismatch is appended to the result text as `!listeners:…`.
+//! arrive  `svc=<k>`: the call goes through service k; every service is built lazily from the ONE layer value the
+//!         adapter keeps (`layer.layer(inner.clone())`; with `lc=1` from a clone of the layer that is dropped at once).
+//!         `h=<j>`: the call is made on the kept handle j of that service (`poll_ready` + `call` on the handle itself, no
+//!         clone; the handle stays alive: a second `arrive … h=j` while the first call is in flight re-uses it). A
+//!         handle that does not exist yet is a clone taken now — of handle `from=<i>` if given and alive, else of the
+//!         service's base handle: "a clone taken after a call". Without `h=` the caller clones the base handle, calls the
+//!         clone and drops it (as before).
+//! manual  `forget svc=<k> h=<j>` drops that handle, `forget svc=<k>` the whole service k (base handle and kept handles;
+//!         a later `svc=k` builds a new one), `forget layer=1` the layer value (a later new service gets a layer built
+//!         afresh from the header); `dropsvc` drops EVERYTHING: every handle of every service, the layer, the adapter's
+//!         own instance of the wrapped service.
+//! probe   `source [timeout=<t>] path=<[cb]*>`: the timeout source the header asks for, constructed stand-alone through
+//!         the public constructors (`FixedTimeout::new(d)` / `DynamicTimeout::new(f)`), then copied along `path`
+//!         ('c' = `Clone::clone` of the concrete value, 'b' = `TimeoutFn::clone_box`, also of a boxed one), is asked
+//!         for the timeout of a request carrying `timeout=<t>`: logged as `probe source <ms|max>`.
+//! Results are rendered through the error type's accessors as well as by pattern: `is_timeout()`, `into_inner()` and the
+//! conversion into `ResilienceError` must say what the variant says; if not, `!accessors:…` is appended to the text.
+//!
 //! No observed choices: since the repair "time limiter without cancellation prefers a finished
 //! inner call over the timeout" the non-cancel `select!` is biased (oneshot first), so the layer
 //! is deterministic under the harness and the model takes no `@…` input.
 use crate::world::*;
-use std::collections::HashMap;
+use std::cell::Cell;
+use std::collections::{BTreeMap, HashMap};
 use std::sync::{Arc, Mutex};
 use std::time::Duration;
 use tower::{Layer, Service};
+use tower_resilience_core::ResilienceError;
 use tower_resilience_timelimiter::{
-    DynamicTimeout, FixedTimeout, TimeLimiter, TimeLimiterConfigBuilder, TimeLimiterError, TimeLimiterLayer,
+    DynamicTimeout, FixedTimeout, TimeLimiter, TimeLimiterConfigBuilder, TimeLimiterError, TimeLimiterLayer, TimeoutFn,
 };
 
 type DynFn = Box<dyn Fn(&Req) -> Duration + Send + Sync>;
@@ -55,10 +82,41 @@ enum Svc {
     Dyn(TimeLimiter<Inner, DynamicTimeout<DynFn>>),
 }
 
+/// the one layer value the services are built from
+enum LayerV {
+    Fixed(TimeLimiterLayer<FixedTimeout>),
+    Dyn(TimeLimiterLayer<DynamicTimeout<DynFn>>),
+}
+
+impl LayerV {
+    fn make(&self, inner: Inner) -> Svc {
+        match self {
+            LayerV::Fixed(l) => Svc::Fixed(l.layer(inner)),
+            LayerV::Dyn(l) => Svc::Dyn(l.layer(inner)),
+        }
+    }
+    fn dup(&self) -> LayerV {
+        match self {
+            LayerV::Fixed(l) => LayerV::Fixed(l.clone()),
+            LayerV::Dyn(l) => LayerV::Dyn(l.clone()),
+        }
+    }
+}
+
 /// the builder between two setter calls: its type depends on the last timeout setter
 enum Builder {
     Fixed(TimeLimiterConfigBuilder<FixedTimeout>),
     Dyn(TimeLimiterConfigBuilder<DynamicTimeout<DynFn>>),
+}
+
+/// a setter that keeps the builder's type, applied to whichever type it has
+macro_rules! same_type {
+    ($b:expr, $x:ident => $e:expr) => {
+        match $b {
+            Builder::Fixed($x) => Builder::Fixed($e),
+            Builder::Dyn($x) => Builder::Dyn($e),
+        }
+    };
 }
 
 /// `<ms>` or `max` (= `Duration::MAX`)
@@ -72,6 +130,14 @@ fn tmo(s: &str) -> Option<Duration> {
     }
 }
 
+fn tmo_text(d: Duration) -> String {
+    if d == Duration::MAX {
+        "max".into()
+    } else {
+        d.as_millis().to_string()
+    }
+}
+
 type PerReq = Arc<Mutex<HashMap<usize, Duration>>>;
 
 fn extractor(table: &PerReq, dflt: Duration) -> DynFn {
@@ -79,27 +145,93 @@ fn extractor(table: &PerReq, dflt: Duration) -> DynFn {
     Box::new(move |req: &Req| table.lock().unwrap().get(&req.c).cloned().unwrap_or(dflt))
 }
 
-/// apply the setters of `chain` in order through the public builder API
-fn build_chain(chain: &str, table: &PerReq, inner: Inner) -> Svc {
-    let mut b = Builder::Fixed(TimeLimiterLayer::builder());
+// listeners registered through the chain: registrations / firings / call results rendered, per kind
+// (0 success, 1 error, 2 timeout); the harness is single-threaded, one case at a time
+thread_local! {
+    static ARMED: Cell<[u64; 3]> = const { Cell::new([0; 3]) };
+    static FIRED: Cell<[u64; 3]> = const { Cell::new([0; 3]) };
+    static SEEN: Cell<[u64; 3]> = const { Cell::new([0; 3]) };
+}
+fn bump(k: &'static std::thread::LocalKey<Cell<[u64; 3]>>, i: usize) {
+    k.with(|c| {
+        let mut a = c.get();
+        a[i] += 1;
+        c.set(a);
+    });
+}
+
+/// what the header asks the builder for, as a chain (the old `timeout= cancel= dyn=` form is the chain it always was:
+/// source first, flag second)
+fn chain_of(kv: &Kv) -> String {
+    if let Some(chain) = kv.get("chain") {
+        return chain.to_string();
+    }
+    let timeout = kv.get("timeout").and_then(tmo).unwrap_or(Duration::from_millis(5000));
+    let cancel = kv.u64("cancel", 1) != 0;
+    let dynamic = kv.u64("dyn", 0) != 0;
+    format!("{}{},c{}", if dynamic { "f" } else { "d" }, tmo_text(timeout), cancel as u8)
+}
+
+/// apply the setters of `chain` in order through the public builder API; also: the arguments of the timeout setter
+/// applied last (what a stand-alone timeout source has to be constructed with: `probe source`)
+/// (`arm`: the counting listeners of the chain are counted as registrations — the first time the header's chain is built;
+/// a layer built again from the same header carries the same listeners, every call fires those of its own layer)
+fn build_chain(via: &str, chain: &str, table: &PerReq, arm: bool) -> (LayerV, (bool, Duration)) {
+    let mut b = Builder::Fixed(match via {
+        "new" => TimeLimiterConfigBuilder::new(),
+        "default" => TimeLimiterConfigBuilder::<FixedTimeout>::default(),
+        _ => TimeLimiterLayer::builder(),
+    });
+    let mut src = (false, Duration::from_secs(5));
     for item in chain.split(',') {
         let (head, arg) = if item.is_char_boundary(item.len().min(1)) { item.split_at(item.len().min(1)) } else { ("", "") };
         let num = if arg.bytes().all(|x| x.is_ascii_digit()) { arg.parse::<u64>().ok() } else { None };
         let dur = tmo(arg);
         b = match (head, dur, num, b) {
-            ("d", Some(d), _, Builder::Fixed(x)) => Builder::Fixed(x.timeout_duration(d)),
-            ("d", Some(d), _, Builder::Dyn(x)) => Builder::Fixed(x.timeout_duration(d)),
-            ("f", Some(d), _, Builder::Fixed(x)) => Builder::Dyn(x.timeout_fn(extractor(table, d))),
-            ("f", Some(d), _, Builder::Dyn(x)) => Builder::Dyn(x.timeout_fn(extractor(table, d))),
-            ("c", _, Some(v), Builder::Fixed(x)) if v <= 1 => Builder::Fixed(x.cancel_running_future(v == 1)),
-            ("c", _, Some(v), Builder::Dyn(x)) if v <= 1 => Builder::Dyn(x.cancel_running_future(v == 1)),
+            ("d", Some(d), _, Builder::Fixed(x)) => {
+                src = (false, d);
+                Builder::Fixed(x.timeout_duration(d))
+            }
+            ("d", Some(d), _, Builder::Dyn(x)) => {
+                src = (false, d);
+                Builder::Fixed(x.timeout_duration(d))
+            }
+            ("f", Some(d), _, Builder::Fixed(x)) => {
+                src = (true, d);
+                Builder::Dyn(x.timeout_fn(extractor(table, d)))
+            }
+            ("f", Some(d), _, Builder::Dyn(x)) => {
+                src = (true, d);
+                Builder::Dyn(x.timeout_fn(extractor(table, d)))
+            }
+            ("c", _, Some(v), b) if v <= 1 => same_type!(b, x => x.cancel_running_future(v == 1)),
+            ("n", _, _, b) => same_type!(b, x => x.name(arg)),
+            ("l", _, _, b) if arg == "s" => {
+                if arm {
+                    bump(&ARMED, 0);
+                }
+                same_type!(b, x => x.on_success(|_| bump(&FIRED, 0)))
+            }
+            ("l", _, _, b) if arg == "e" => {
+                if arm {
+                    bump(&ARMED, 1);
+                }
+                same_type!(b, x => x.on_error(|_| bump(&FIRED, 1)))
+            }
+            ("l", _, _, b) if arg == "t" => {
+                if arm {
+                    bump(&ARMED, 2);
+                }
+                same_type!(b, x => x.on_timeout(|| bump(&FIRED, 2)))
+            }
             (_, _, _, b) => b,
         };
     }
-    match b {
-        Builder::Fixed(x) => Svc::Fixed(x.build().layer(inner)),
-        Builder::Dyn(x) => Svc::Dyn(x.build().layer(inner)),
-    }
+    let layer = match b {
+        Builder::Fixed(x) => LayerV::Fixed(x.build()),
+        Builder::Dyn(x) => LayerV::Dyn(x.build()),
+    };
+    (layer, src)
 }
 
 /// the wrapped service: `Inner::tied()`, with the readiness behaviour the header asks for (`ready=`, `rec=`, `recall=`)
@@ -116,54 +248,114 @@ fn wrapped(kv: &Kv) -> Inner {
     i
 }
 
+/// one service built from the layer: the handle `layer()` returned, and the handles callers keep
+struct Entry {
+    base: Svc,
+    handles: BTreeMap<u64, Svc>,
+}
+
 pub struct Adapter {
-    /// `None` once `manual dropsvc` has dropped it
-    svc: Option<Svc>,
+    header: Kv,
+    /// the adapter's own instance of the wrapped service (every service wraps a clone of it); `None` after `dropsvc`
+    inner: Option<Inner>,
+    /// the layer value; `None` after `forget layer=1` (rebuilt from the header when next needed) and after `dropsvc`
+    layer: Option<LayerV>,
+    svcs: BTreeMap<u64, Entry>,
+    /// `manual dropsvc` has dropped everything
+    gone: bool,
     /// per-request timeout carried "in the request": caller id -> timeout (the request type of the
     /// harness has no such field, so the extractor closure looks it up by the request's caller id)
     per_req: PerReq,
+    /// arguments of the timeout setter the chain applied last: (per-request?, duration / default)
+    src: (bool, Duration),
 }
 
 impl Adapter {
     pub fn new(kv: &Kv) -> Adapter {
-        let timeout = kv.get("timeout").and_then(tmo).unwrap_or(Duration::from_millis(5000));
-        let cancel = kv.u64("cancel", 1) != 0;
-        let dynamic = kv.u64("dyn", 0) != 0;
+        for k in [&ARMED, &FIRED, &SEEN] {
+            k.with(|c| c.set([0; 3]));
+        }
         let per_req: PerReq = Arc::new(Mutex::new(HashMap::new()));
         let inner = wrapped(kv);
-        let svc = if let Some(chain) = kv.get("chain") {
-            build_chain(chain, &per_req, inner)
-        } else if dynamic {
-            let f = extractor(&per_req, timeout);
-            let layer = TimeLimiterLayer::builder().timeout_fn(f).cancel_running_future(cancel).build();
-            Svc::Dyn(layer.layer(inner))
-        } else {
-            let layer = TimeLimiterLayer::builder().timeout_duration(timeout).cancel_running_future(cancel).build();
-            Svc::Fixed(layer.layer(inner))
-        };
-        Adapter { svc: Some(svc), per_req }
+        let (layer, src) = build_chain(kv.get("via").unwrap_or("builder"), &chain_of(kv), &per_req, true);
+        let mut svcs = BTreeMap::new();
+        svcs.insert(0, Entry { base: layer.make(inner.clone()), handles: BTreeMap::new() });
+        Adapter { header: kv.clone(), inner: Some(inner), layer: Some(layer), svcs, gone: false, per_req, src }
+    }
+
+    /// the layer value again, from the header (after `forget layer=1`)
+    fn build_layer(&self) -> LayerV {
+        build_chain(self.header.get("via").unwrap_or("builder"), &chain_of(&self.header), &self.per_req, false).0
     }
 }
 
-pub fn render(r: &Result<Resp, TimeLimiterError<IErr>>) -> String {
-    match r {
-        Ok(x) => format!("ok:{}", x.v),
-        Err(TimeLimiterError::Inner(e)) => format!("err:inner{}:{}", e.kind, e.v),
-        Err(TimeLimiterError::Timeout) => "err:timeout".into(),
-    }
+fn inner_text(e: &IErr) -> String {
+    format!("inner{}:{}", e.kind, e.v)
 }
 
-fn start<S>(svc: &S, c: usize, req: Req) -> Option<CallFut>
+/// an error of the layer: by pattern, and through `is_timeout()` / `into_inner()` / `ResilienceError::from`; -> (kind, text)
+fn render_err(e: TimeLimiterError<IErr>) -> (usize, String) {
+    let (kind, mut text, twin) = match &e {
+        TimeLimiterError::Timeout => (2, "err:timeout".to_string(), TimeLimiterError::Timeout),
+        TimeLimiterError::Inner(i) => (1, format!("err:{}", inner_text(i)), TimeLimiterError::Inner(i.clone())),
+    };
+    let want_inner = match &e {
+        TimeLimiterError::Timeout => None,
+        TimeLimiterError::Inner(i) => Some(i.clone()),
+    };
+    let is_t = e.is_timeout();
+    let got_inner = e.into_inner();
+    let conv: ResilienceError<IErr> = twin.into();
+    let conv_text = match &conv {
+        ResilienceError::Timeout { layer } => format!("timeout({})", layer),
+        ResilienceError::Application(i) => format!("application:{}", inner_text(i)),
+        _ => "other".to_string(),
+    };
+    let conv_ok = match (&conv, &want_inner) {
+        (ResilienceError::Timeout { .. }, None) => conv.is_timeout() && !conv.is_application(),
+        (ResilienceError::Application(i), Some(w)) => i == w && conv.is_application() && !conv.is_timeout(),
+        _ => false,
+    };
+    if is_t != (kind == 2) || got_inner != want_inner || !conv_ok {
+        text.push_str(&format!(
+            "!accessors:is_timeout={},into_inner={},as_resilience={}",
+            is_t,
+            got_inner.as_ref().map(inner_text).unwrap_or("none".into()),
+            conv_text
+        ));
+    }
+    (kind, text)
+}
+
+/// the result of a call (a response future that resolved)
+pub fn render(r: Result<Resp, TimeLimiterError<IErr>>) -> String {
+    let (kind, mut text) = match r {
+        Ok(x) => (0, format!("ok:{}", x.v)),
+        Err(e) => render_err(e),
+    };
+    bump(&SEEN, kind);
+    let (armed, fired, seen) = (ARMED.with(|c| c.get()), FIRED.with(|c| c.get()), SEEN.with(|c| c.get()));
+    if (0..3).any(|i| fired[i] != armed[i] * seen[i]) {
+        text.push_str(&format!(
+            "!listeners:registered={}/{}/{},fired={}/{}/{},results={}/{}/{}",
+            armed[0], armed[1], armed[2], fired[0], fired[1], fired[2], seen[0], seen[1], seen[2]
+        ));
+        // report once: resynchronise
+        FIRED.with(|c| c.set([armed[0] * seen[0], armed[1] * seen[1], armed[2] * seen[2]]));
+    }
+    text
+}
+
+/// what a Tower caller does with a handle: `poll_ready` first; anything but `Ready(Ok)` and no call is made
+fn call_on<S>(svc: &mut S, c: usize, req: Req) -> Option<CallFut>
 where
-    S: Service<Req, Response = Resp, Error = TimeLimiterError<IErr>> + Clone,
+    S: Service<Req, Response = Resp, Error = TimeLimiterError<IErr>>,
     S::Future: 'static,
 {
-    let mut svc = svc.clone();
-    // what a Tower caller does: `poll_ready` first; anything but `Ready(Ok)` and no call is made
-    match poll_ready_once(&mut svc) {
+    match poll_ready_once(svc) {
         std::task::Poll::Ready(Ok(())) => {}
         std::task::Poll::Ready(Err(e)) => {
-            log(format!("result {} {}", c, render(&Err(e))));
+            log(format!("result {} {}", c, render_err(e).1));
             return None;
         }
         std::task::Poll::Pending => {
@@ -172,29 +364,124 @@ where
         }
     }
     let fut = svc.call(req);
-    Some(held(fut, |r| render(&r)))
+    Some(held(fut, render))
+}
+
+impl Svc {
+    fn dup(&self) -> Svc {
+        match self {
+            Svc::Fixed(s) => Svc::Fixed(s.clone()),
+            Svc::Dyn(s) => Svc::Dyn(s.clone()),
+        }
+    }
+    fn call_on(&mut self, c: usize, req: Req) -> Option<CallFut> {
+        match self {
+            Svc::Fixed(s) => call_on(s, c, req),
+            Svc::Dyn(s) => call_on(s, c, req),
+        }
+    }
+}
+
+/// the stand-alone timeout source of `probe source`, on its way along the copy path
+enum Src {
+    Fixed(FixedTimeout),
+    Dyn(DynamicTimeout<DynFn>),
+    Boxed(Box<dyn TimeoutFn<Req>>),
 }
 
 impl Mw for Adapter {
     fn arrive(&mut self, c: usize, kv: &Kv) -> Option<CallFut> {
-        let Some(svc) = self.svc.as_ref() else {
+        if self.gone {
             log_raw("noop".into());
             return None;
-        };
+        }
         if let Some(d) = kv.get("timeout").and_then(tmo) {
             self.per_req.lock().unwrap().insert(c, d);
         }
         let req = Req::new(c, kv);
-        match svc {
-            Svc::Fixed(s) => start(s, c, req),
-            Svc::Dyn(s) => start(s, c, req),
+        let k = kv.u64("svc", 0);
+        if !self.svcs.contains_key(&k) {
+            if self.layer.is_none() {
+                self.layer = Some(self.build_layer());
+            }
+            let (layer, inner) = (self.layer.as_ref().unwrap(), self.inner.as_ref().unwrap().clone());
+            let base = if kv.u64("lc", 0) == 1 { layer.dup().make(inner) } else { layer.make(inner) };
+            self.svcs.insert(k, Entry { base, handles: BTreeMap::new() });
+        }
+        let entry = self.svcs.get_mut(&k).unwrap();
+        match kv.opt_u64("h") {
+            // the caller clones the service's handle, calls the clone and lets go of it
+            None => entry.base.dup().call_on(c, req),
+            Some(j) => {
+                if !entry.handles.contains_key(&j) {
+                    let from = kv.opt_u64("from").and_then(|i| entry.handles.get(&i)).unwrap_or(&entry.base);
+                    let h = from.dup();
+                    entry.handles.insert(j, h);
+                }
+                entry.handles.get_mut(&j).unwrap().call_on(c, req)
+            }
         }
     }
-    fn manual(&mut self, what: &str, _kv: &Kv) {
-        if what == "dropsvc" && self.svc.is_some() {
+    fn manual(&mut self, what: &str, kv: &Kv) {
+        if what == "dropsvc" && !self.gone {
             log_raw(format!("#dropsvc {}", now_ms()));
-            self.svc = None;
+            self.svcs.clear();
+            self.layer = None;
+            self.inner = None;
+            self.gone = true;
         }
+        if what == "forget" && !self.gone {
+            if kv.get("layer").is_some() {
+                log_raw(format!("#forget {} layer", now_ms()));
+                self.layer = None;
+            } else if let Some(k) = kv.opt_u64("svc") {
+                match kv.opt_u64("h") {
+                    Some(j) => {
+                        if let Some(e) = self.svcs.get_mut(&k) {
+                            if e.handles.remove(&j).is_some() {
+                                log_raw(format!("#forget {} svc={} h={}", now_ms(), k, j));
+                            }
+                        }
+                    }
+                    None => {
+                        if self.svcs.remove(&k).is_some() {
+                            log_raw(format!("#forget {} svc={}", now_ms(), k));
+                        }
+                    }
+                }
+            }
+        }
+    }
+    fn probe(&mut self, what: &str, kv: &Kv) {
+        if what != "source" {
+            return;
+        }
+        // a request of its own (an id no caller has), carrying `timeout=` if the probe says so
+        let c = usize::MAX - 1;
+        match kv.get("timeout").and_then(tmo) {
+            Some(d) => self.per_req.lock().unwrap().insert(c, d),
+            None => self.per_req.lock().unwrap().remove(&c),
+        };
+        let req = Req::new(c, kv);
+        let (dynamic, d) = self.src;
+        let mut s = if dynamic { Src::Dyn(DynamicTimeout::new(extractor(&self.per_req, d))) } else { Src::Fixed(FixedTimeout::new(d)) };
+        for step in kv.get("path").unwrap_or("").chars() {
+            s = match (step, s) {
+                ('c', Src::Fixed(x)) => Src::Fixed(Clone::clone(&x)),
+                ('c', Src::Dyn(x)) => Src::Dyn(x.clone()),
+                ('b', Src::Fixed(x)) => Src::Boxed(TimeoutFn::<Req>::clone_box(&x)),
+                ('b', Src::Dyn(x)) => Src::Boxed(TimeoutFn::<Req>::clone_box(&x)),
+                ('b', Src::Boxed(x)) => Src::Boxed(x.clone_box()),
+                (_, s) => s,
+            };
+        }
+        let t = match &s {
+            Src::Fixed(x) => x.get_timeout(&req),
+            Src::Dyn(x) => x.get_timeout(&req),
+            Src::Boxed(x) => x.get_timeout(&req),
+        };
+        self.per_req.lock().unwrap().remove(&c);
+        log(format!("probe source {}", tmo_text(t)));
     }
     /// non-cancel mode spawns the inner call: let the task run (and its completion propagate)
     fn yields(&self) -> usize {
